@@ -20,6 +20,8 @@ import (
 	"github.com/Trendyol/go-dcp/tracing"
 	"github.com/couchbase/gocbcore/v10"
 	"pgregory.net/rapid"
+
+	"verif/simnode"
 )
 
 // ---------- (a) min rule ----------
@@ -867,4 +869,105 @@ func init() {
 		d, _ := c07ExecInteg(sc)
 		return d
 	})
+}
+
+// ---------- (d) no lost wake-up at start-up ----------
+// The copies of a quiet vBucket have persisted everything long ago and report the same state in every poll round. A session
+// that opens then (start-up, or the reopen of a rebalance) must deliver the events the server streams - they are covered by
+// the threshold from the first round on - however long the checkpoint load takes relative to the poll interval.
+type c07Startup struct {
+	NVb         int    `json:"nvb"`
+	Persist     uint64 `json:"persist"`
+	Events      int    `json:"events"`        // per vBucket, seqnos 1..Events (<= Persist)
+	LoadDelayMs int    `json:"load_delay_ms"` // how long the metadata store takes to answer the checkpoint load
+	PollMs      int    `json:"poll_ms"`       // rollbackMitigation.interval
+}
+
+func c07ExecStartup(sc c07Startup) string {
+	e := lbShared(1, 64, 0)
+	e.cfg.RollbackMitigation.Disabled = false
+	e.cfg.RollbackMitigation.Interval = time.Duration(sc.PollMs) * time.Millisecond
+	e.cfg.RollbackMitigation.ConfigWatchInterval = 500 * time.Millisecond
+	c := e.c
+	c.Lock()
+	for v := 0; v < sc.NVb; v++ {
+		c.Failover[uint16(v)] = []simnode.FailoverEntry{{UUID: 0xA1, Seq: 0}}
+		c.Persist[[2]int{v, 0}] = [2]uint64{0xA1, sc.Persist}
+	}
+	for v := 0; v < 64; v++ {
+		c.High[uint16(v)] = sc.Persist
+	}
+	c.Unlock()
+	fm := newFakeMeta()
+	fm.loadDelay = time.Duration(sc.LoadDelayMs) * time.Millisecond
+	cons := &fakeConsumer{}
+	cons.onEvent = func(d *delivered) { d.Ctx.Ack() }
+	disc := &fakeDiscovery{}
+	disc.set(0, uint16(sc.NVb-1))
+	st := newRealStream(e, fm, cons, disc, make(chan struct{}, 1))
+	if ok, pv := within(30*time.Second, func() { st.Open() }); !ok || pv != nil {
+		return fmt.Sprintf("Open() with rollback mitigation: returned=%v panic=%v", ok, pv)
+	}
+	defer within(30*time.Second, func() { st.Close(false) })
+	for v := 0; v < sc.NVb; v++ {
+		s := c.Stream(uint16(v))
+		if s == nil {
+			return fmt.Sprintf("no open stream for vb %d on the node", v)
+		}
+		s.Marker(1, uint64(sc.Events))
+		for q := 1; q <= sc.Events; q++ {
+			s.Mutation(simnode.DocEvent{Seq: uint64(q), Rev: uint64(q), Cas: (1_700_000_000 + uint64(q)) * 1_000_000_000, Key: []byte(fmt.Sprintf("k%d", q)), Value: []byte(`{}`)})
+		}
+	}
+	want := sc.NVb * sc.Events
+	deadline := time.Now().Add(6 * time.Second)
+	for cons.count() < want {
+		if time.Now().After(deadline) {
+			return fmt.Sprintf("every copy has reported persisted seq %d (the same in every poll round, interval %d ms) since before the session opened; %d events with seqnos <= %d were streamed, %d reached the consumer within 6 s (checkpoint load took %d ms): the threshold that covers them was never applied - lost wake-up at start-up", sc.Persist, sc.PollMs, want, sc.Events, cons.count(), sc.LoadDelayMs)
+		}
+		time.Sleep(time.Millisecond)
+	}
+	return ""
+}
+
+func TestC07_StartupWakeup(t *testing.T) {
+	rapid.Check(t, func(rt *rapid.T) {
+		sc := c07Startup{NVb: rapid.IntRange(1, 3).Draw(rt, "nvb"), Persist: rapid.Uint64Range(5, 50).Draw(rt, "persist"),
+			LoadDelayMs: rapid.SampledFrom([]int{0, 0, 10, 30, 60}).Draw(rt, "loaddelay"), PollMs: rapid.SampledFrom([]int{2, 4, 8, 40}).Draw(rt, "poll")}
+		sc.Events = rapid.IntRange(1, int(sc.Persist)).Draw(rt, "events")
+		if sc.Events > 8 {
+			sc.Events = 8
+		}
+		journal("C07", "c07startup", sc)
+		d := c07ExecStartup(sc)
+		journalDone()
+		if d != "" {
+			violation(rt, "C07", "c07startup", sc, "%s", d)
+		}
+		labs := []string{"startup_cases"}
+		if sc.LoadDelayMs > 2*sc.PollMs {
+			labs = append(labs, "first_poll_round_before_the_observers_exist")
+		}
+		record("C07", sc, sc.LoadDelayMs > 2*sc.PollMs, labs...)
+	})
+}
+
+func init() {
+	registerReplay("c07startup", func(raw json.RawMessage) string {
+		var sc c07Startup
+		if err := json.Unmarshal(raw, &sc); err != nil {
+			return err.Error()
+		}
+		return c07ExecStartup(sc)
+	})
+}
+
+// the committed replay of the repaired defect: a regression is a violation
+func TestC07_Fixed(t *testing.T) {
+	for _, f := range []string{"findings/C07_first_persist_dispatch_lost_at_open.json"} {
+		if d := runReplayFile(verifRoot() + "/" + f); d != "" {
+			violation(t, "C07", "c07startup", c07Startup{NVb: 1, Persist: 10, Events: 8, LoadDelayMs: 30, PollMs: 4}, "regression of a repaired defect (%s): %s", f, d)
+		}
+		record("C07", f, false, "fixed_replay")
+	}
 }
